@@ -210,6 +210,22 @@ func dExt(thorough bool) []ref.Builder {
 			return &rtcp.ExtendedReport{SenderSSRC: 5, Reports: []rtcp.ReportBlock{&rtcp.UnknownReportBlock{XRHeader: rtcp.XRHeader{BlockType: 9}, Bytes: make([]byte, n)}}}
 		})
 	}
+	// sizes next to the 16-bit length field's range
+	for _, n := range []int{65515, 65516, 65517, 65519, 65520, 65521, 65522, 65523} {
+		n := n
+		add("ApplicationDefined", fmt.Sprintf("ext:data=%d", n), func() rtcp.Packet {
+			return &rtcp.ApplicationDefined{SubType: 1, SSRC: 2, Name: "abcd", Data: make([]byte, n)}
+		})
+	}
+	for _, n := range []int{65504, 65508, 65512} {
+		n := n
+		add("SenderReport", fmt.Sprintf("ext:ext=%d", n), func() rtcp.Packet {
+			return &rtcp.SenderReport{SSRC: 1, ProfileExtensions: make([]byte, n)}
+		})
+		add("ReceiverReport", fmt.Sprintf("ext:ext=%d", n+20), func() rtcp.Packet {
+			return &rtcp.ReceiverReport{SSRC: 1, ProfileExtensions: make([]byte, n+20)}
+		})
+	}
 	if thorough {
 		add("CCFeedbackReport", "ext:4x16384", func() rtcp.Packet {
 			p := &rtcp.CCFeedbackReport{SenderSSRC: 1}
@@ -229,12 +245,6 @@ func dExt(thorough bool) []ref.Builder {
 			}
 			return p
 		})
-		for _, n := range []int{65519, 65520, 65523} {
-			n := n
-			add("ApplicationDefined", fmt.Sprintf("ext:data=%d", n), func() rtcp.Packet {
-				return &rtcp.ApplicationDefined{SubType: 1, SSRC: 2, Name: "abcd", Data: make([]byte, n)}
-			})
-		}
 		add("SenderReport", "ext:ext=65000", func() rtcp.Packet {
 			return &rtcp.SenderReport{ProfileExtensions: make([]byte, 65000)}
 		})
